@@ -7,7 +7,7 @@
 //            kind n (plain), t (throws), s (submits task id+50 from inside the task), p (has a schedule point inside),
 //                 l (long: sleeps 20 s of virtual time - longer than stop()'s drain and shutdown polling together)
 //         main ops (after constructing the pool and starting the submitters; destruction is always last):
-//            join (wait for the submitters)  drain  stop  count  idle (sleep 3 idle timeouts)  restart (stop, reset, start)
+//            join (wait for the submitters)  drain  stop  count  idle (sleep 3 idle timeouts)  restart (stop, reset, start)  reset  start (the two halves of a restart as separate operations)
 //   drv_s_pool dfs <initial> <max> <queueCap> <idleMs> <prog> <preemption bound> <max executions> <out.ndjson> [parallel]
 //
 // Events: Begin{init,max,cap} SubmitCall{t,id,api} SubmitRet{t,id,ok} TaskRun{id} TaskEnd{id} Count{t,n,nw}
@@ -194,16 +194,27 @@ static std::string runOne(const Config &cfg, const std::vector<ThreadProg> &prog
                     sh->tr.add(vf::Ev("Count").str("t", "main").i("n", (int)pool->getTotalThreadCount()).i("nw", vf::liveThreads("w")));
                   else if (op.op == "idle")
                     std::this_thread::sleep_for(std::chrono::milliseconds(3LL * cfg.idleMs));
+                  else if (op.op == "reset")
+                  {
+                    auto r1 = pool->reset();
+                    sh->tr.add(vf::Ev("ResetRet").b("ok", r1.success));
+                  }
+                  else if (op.op == "start")
+                  {
+                    sh->tr.add(vf::Ev("Restart").b("ok", true)); // announced before the call, see "restart"
+                    auto r2 = pool->start();
+                    sh->tr.add(vf::Ev("RestartRet").b("ok", r2.success));
+                  }
                   else if (op.op == "restart")
                   {
                     // a full cycle: stop (logged like any stop), reset, start - the pool accepts work again
                     sh->tr.add(vf::Ev("LifeCall").str("op", "stop"));
                     auto r0 = pool->stop();
                     sh->tr.add(vf::Ev("LifeRet").str("op", "stop").b("ok", r0.success));
-                    // (announced BEFORE the calls: a submitter may be accepted as soon as start() has opened the pool,
-                    // before this thread gets to log anything)
-                    sh->tr.add(vf::Ev("Restart").b("ok", true));
                     auto r1 = pool->reset();
+                    // (announced BEFORE start(): a submitter may be accepted as soon as start() has opened the pool, before
+                    // this thread gets to log anything - but not before: a pool that has merely been reset is still stopped)
+                    sh->tr.add(vf::Ev("Restart").b("ok", true));
                     auto r2 = pool->start();
                     sh->tr.add(vf::Ev("RestartRet").b("ok", r1.success && r2.success));
                   }
